@@ -118,6 +118,15 @@ class State:
             self.p.namespace_id = self.dir
             self.p.connect({"k": "v"})
         self.nevents = 0
+        self.tick = 0
+
+    def stamp(self, path):
+        """filesystem only: give the file just written a logical modification time (distinct, ordered by operation) so that
+        the clock granularity of the scratch file system is not an uncontrolled input of the provider's hash cache"""
+        if self.dir:
+            self.tick += 1
+            t = (1_600_000_000 + self.tick) * 10 ** 9
+            os.utime(self.p.join(self.dir, path), ns=(t, t))
 
 
 def make(cfg):
@@ -176,6 +185,7 @@ def apply(st, op, check):
         want = EXISTS if e is not None else NOTFOUND if ps == "missing" else EXISTS if ps == "file" else OK
         got, info = _do(p.create, path, io.BytesIO(data))
         if got == OK and want == OK:
+            st.stamp(path)
             m.t[m.k(path)] = {"path": path, "type": "F", "content": data, "oid": info.oid}
             mutated = (info.oid, True)
             if info.otype != FILE or not info.oid:
@@ -246,6 +256,7 @@ def apply(st, op, check):
         want = NOTFOUND if e is None else EXISTS if e["type"] == "D" else OK
         got, info = _do(p.upload, oid, io.BytesIO(data))
         if got == OK and want == OK:
+            st.stamp(e["path"])
             e["content"] = data
             mutated = (oid, True)
             if info.oid != oid:
@@ -466,13 +477,17 @@ def extra_checks(tier):
 
 def main(tier):
     rep = apix.run(PROP, __name__, tier,
-                   rule="all call sequences up to depth 3 (4 thorough; filesystem 2/3) over create/mkdir/rename/upload/delete on "
+                   rule="all call sequences up to depth 3 (4 thorough) over create/mkdir/rename/upload/delete on "
                         "names {a,A,b,d,d/a,e-acute.x} and four size classes (0, 10 B, 1.5 KiB, 3 KiB), four mock flavours "
-                        "(id style x case mode) and FileSystemProvider on a /dev/shm directory; after every call: result or "
+                        "(id style x case mode) and FileSystemProvider on a /dev/shm directory, plus a depth 5 (6) search on the "
+                        "filesystem provider over a narrow alphabet with two 3 KiB contents that differ only in the middle (hash "
+                        "cache; reads are part of the sequence, cache contents part of the state); after every call: result or "
                         "error class vs the reference tree, then info/exists/listdir/download/hash consistency sweep, id "
                         "stability, hash law, event report; plus identity, single-use and watchdog event conversion obligations",
                    technique="explicit-state BFS over provider API call sequences against a reference tree model",
-                   assumptions=["asynchronous inotify delivery timing and the networked providers are not covered"])
+                   assumptions=["asynchronous inotify delivery timing and the networked providers are not covered",
+                                "filesystem provider: files get logical modification times that are distinct and ordered by "
+                                "operation (two writes inside one clock tick of a coarse-grained file system are not explored)"])
     rep.add_results([extra_checks(tier)], part="obligations")
     return rep.finish()
 
